@@ -22,9 +22,6 @@ def c_chk(ex, state, args, kwargs, sv):
         if isinstance(v, VUnion):
             return ex.dist(state, [v], lambda a: c_chk(ex, state, [a, ct], {}, None))
         raise Unsupported("c_chk of %r" % (v,))
-    bv = getattr(v, "bv", None)
-    if bv is not None and bv.size() == 8 and (lo, hi) == (0, 255):
-        return v
     t = simp(v.t)
     if z3.is_int_value(t):
         if not (lo <= t.as_long() <= hi):
@@ -70,7 +67,7 @@ def c_local_array(ex, state, args, kwargs, sv):
     if n is None:
         raise Unsupported("VLA")
     o = HObj("barray")
-    o.arr = z3.Array(fresh_name("local_arr"), z3.IntSort(), z3.BitVecSort(8))
+    o.arr = z3.Array(fresh_name("local_arr"), z3.IntSort(), z3.IntSort())
     o.n = z3.IntVal(n)
     return state.alloc(o)
 
@@ -106,16 +103,15 @@ def c_ptr_addr(ex, state, args, kwargs, sv):
 
 
 def _vec(ex, state, p):
+    """a 16-octet vector value: array view (Lambda k. buffer[off + k], 16)"""
     base, off = (p.base, p.off) if isinstance(p, VPtr) else (p, z3.IntVal(0))
     o = ex.obj(state, base)
     ex.raise_if(state, z3.Or(off < 0, off + 16 > o.n), "IndexError")     # 16-byte access inside the buffer
-    items = []
-    for k in range(16):
-        bv = z3.Select(o.arr, simp(off + k))
-        v = VInt(z3.BV2Int(bv))
-        v.bv = bv
-        items.append(v)
-    return base, off, VTuple(items)
+    k = z3.Int(fresh_name("vec_k"))
+    m = z3.Array(fresh_name("xmm"), z3.IntSort(), z3.IntSort())     # named vector value, defined lane-wise
+    state.assume(z3.ForAll([k], z3.Implies(z3.And(k >= 0, k < 16), z3.Select(m, k) == z3.Select(o.arr, off + k)),
+                           patterns=[z3.Select(m, k)]))
+    return base, off, VABytes(m, 16)
 
 
 @builtin("c_mm_loadu_si128")
@@ -139,21 +135,23 @@ def c_mm_store(ex, state, args, kwargs, sv):
     ex.raise_if(state, z3.Or(off < 0, off + 16 > o.n), "IndexError")
     addr = c_ptr_addr(ex, state, [p], {}, None)
     ex.oblige("c-alignment", state, addr.t % 16 == 0, label="store_si128")
-    for k in range(16):
-        o.arr = z3.Store(o.arr, simp(off + k), v.items[k].bv)
+    # one 16-octet block update (a lambda array: a single range test, lanes selected by index)
+    k = z3.Int(fresh_name("blk_k"))
+    old = o.arr
+    o.arr = z3.Lambda([k], z3.If(z3.And(k >= off, k < off + 16), z3.Select(v.arr, k - off), z3.Select(old, k)))
     return VNone
 
 
 @builtin("c_mm_xor_si128")
 def c_mm_xor(ex, state, args, kwargs, sv):
+    from . import natives
     a, b = args
-    items = []
-    for x, y in zip(a.items, b.items):
-        r = x.bv ^ y.bv
-        v = VInt(z3.BV2Int(r))
-        v.bv = r
-        items.append(v)
-    return VTuple(items)
+    k = z3.Int(fresh_name("xor_k"))         # _mm_xor_si128 = 16 octet-wise XORs
+    m = z3.Array(fresh_name("xmm"), z3.IntSort(), z3.IntSort())
+    state.assume(z3.ForAll([k], z3.Implies(z3.And(k >= 0, k < 16),
+                                            z3.Select(m, k) == natives.bxor8(z3.Select(a.arr, k), z3.Select(b.arr, k))),
+                           patterns=[z3.Select(m, k)]))
+    return VABytes(m, 16)
 
 
 @builtin("c_free", "c_builtin_prefetch")
